@@ -31,7 +31,7 @@ TICK = 1.0
 ST = {"READY": 0, "RUNNING": 1, "DONE": 2, "CANCELLING": 3, "CANCELLED": 4}
 ALLOWED_LOGS = [[0], [0, 1], [0, 1, 2], [0, 1, 3], [0, 1, 3, 4], [0, 4], [0, 1, 4]]
 
-_G = {"specs": [], "runlog": {}, "clock": None, "lock": threading.Lock(), "hpo": False, "unit": 1.0}
+_G = {"specs": [], "runlog": {}, "clock": None, "lock": threading.Lock(), "hpo": False, "unit": 1.0, "voff": 0}
 
 
 def _tick(x):
@@ -39,9 +39,10 @@ def _tick(x):
 
 
 def _out(jid, meta):
+    """the value of job `jid` is `jid + voff` (voff = 0 makes the objective of job 0 exactly 0.0)"""
     if _G["hpo"]:
-        return {"objective": float(jid), "metadata": meta}
-    return {"output": float(jid), "metadata": meta}
+        return {"objective": float(jid + _G["voff"]), "metadata": meta}
+    return {"output": float(jid + _G["voff"]), "metadata": meta}
 
 
 async def _run_async(job):
@@ -87,19 +88,86 @@ def _run_sync(job):
     return _out(jid, meta)
 
 
-def _log_storage():
+SPIN_LIMIT = 2000
+
+
+class _Spin(RuntimeError):
+    """the caller polls the storage again and again while nothing changes in it: search() does not return"""
+
+
+def _log_storage(guard=False):
+    """MemoryStorage that logs every status write.  `guard`: count the consecutive `load_all_job_ids` calls with
+    no write to the storage in between; SPIN_LIMIT of them = the caller's `while num_jobs_submitted >
+    num_jobs_gathered: gather("ALL")` loop makes no progress (a statement about progress, not about a duration)"""
     from deephyper.evaluator.storage import MemoryStorage
 
     class LogStorage(MemoryStorage):
         def __init__(self):
             super().__init__()
             self.slog = []
+            self.polls = 0
 
         def store_job_status(self, job_id, job_status):
             self.slog.append((int(str(job_id).split(".")[-1]), int(job_status)))
             return super().store_job_status(job_id, job_status)
 
+        def store_job(self, job_id, key, value):
+            self.polls = 0
+            return super().store_job(job_id, key, value)
+
+        def create_new_job(self, search_id):
+            self.polls = 0
+            return super().create_new_job(search_id)
+
+        def load_all_job_ids(self, search_id):
+            if guard:
+                self.polls += 1
+                if self.polls > SPIN_LIMIT:
+                    raise _Spin("does-not-return: the storage was polled %d times in a row without any write" % SPIN_LIMIT)
+            return super().load_all_job_ids(search_id)
+
     return LogStorage()
+
+
+def _unwrap(inner):
+    return inner
+
+
+class _LogProxy:
+    """process backend: wraps the manager proxy of SharedMemoryStorage in the main process (every status write is made
+    there, by execute() / _on_done / close / gather_other_jobs_done); worker processes receive the bare proxy"""
+
+    def __init__(self, inner):
+        self._inner = inner
+        self.slog = []
+        self.polls = 0
+
+    def store_job_status(self, job_id, job_status):
+        self.polls = 0
+        self.slog.append((int(str(job_id).split(".")[-1]), int(job_status)))
+        return self._inner.store_job_status(job_id, job_status)
+
+    def store_job_out(self, job_id, value):
+        self.polls = 0
+        return self._inner.store_job_out(job_id, value)
+
+    def create_new_job(self, search_id):
+        self.polls = 0
+        return self._inner.create_new_job(search_id)
+
+    def load_all_job_ids(self, search_id):
+        self.polls += 1
+        if self.polls > SPIN_LIMIT:
+            raise _Spin("does-not-return: the storage was polled %d times in a row without any write" % SPIN_LIMIT)
+        return self._inner.load_all_job_ids(search_id)
+
+    def __getattr__(self, k):
+        if k in ("_inner", "slog", "polls"):
+            raise AttributeError(k)
+        return getattr(self._inner, k)
+
+    def __reduce__(self):
+        return (_unwrap, (self._inner,))
 
 
 def _jid(job):
@@ -129,7 +197,7 @@ def run_evaluator_scenario(scn):
     vt = vloop.install()
     vt.reset()
     hpo = bool(scn.get("hpo"))
-    _G.update(specs=[tuple(s) for s in scn["specs"]], runlog={}, clock=vt.now, hpo=hpo)
+    _G.update(voff=int(scn.get("voff", 0)), specs=[tuple(s) for s in scn["specs"]], runlog={}, clock=vt.now, hpo=hpo)
     st = _log_storage()
     ev = Evaluator.create(_run_async, method="serial", method_kwargs={"num_workers": scn["W"], "storage": st})
     tmp = None
@@ -205,7 +273,7 @@ def run_evaluator_realtime(scn):
 
     vloop.uninstall()
     backend = scn["backend"]
-    _G.update(specs=[tuple(s) for s in scn["specs"]], runlog={}, clock=_time.time, hpo=False, unit=scn["unit"])
+    _G.update(voff=int(scn.get("voff", 0)), specs=[tuple(s) for s in scn["specs"]], runlog={}, clock=_time.time, hpo=False, unit=scn["unit"])
     mk = {"num_workers": scn["W"]}
     st = None
     if backend == "thread":
@@ -279,10 +347,13 @@ def _make_search(ev, log_dir, trace, clock, advance):
     class Spy(RandomSearch):
         ask_delays = []  # environment: how long each ask() of the current call takes (serial: virtual ticks)
 
+        ask_ends = []  # the instants at which the slow asks of the current call ended
+
         def ask(self, n=1):
             d = self.ask_delays.pop(0) if self.ask_delays else 0
             if d:
                 advance(d)
+                self.ask_ends.append(clock())
             return super().ask(n)
 
         def tell(self, results):
@@ -341,7 +412,7 @@ def run_search_scenario(scn):
 
             def advance(d):
                 _time.sleep(d * unit)
-        _G.update(specs=[tuple(s) for s in scn["specs"]], runlog={}, clock=clock, hpo=True, unit=unit)
+        _G.update(voff=int(scn.get("voff", 0)), specs=[tuple(s) for s in scn["specs"]], runlog={}, clock=clock, hpo=True, unit=unit)
         mk = {"num_workers": scn["W"]}
         if backend != "process":
             st = _log_storage()
@@ -407,7 +478,250 @@ def run_search_scenario(scn):
     return obs
 
 
+def run_shared_scenario(scn):
+    """a history of search() calls made by SEVERAL evaluators attached to one storage and one search_id (evaluator 0
+    creates the search, the others are created with `storage=<the same>, search_id=<its id>`: they continue it and
+    collect its finished jobs through `gather_other_jobs_done`); call j is made by evaluator `calls[j]["k"]`.
+    Backend serial (virtual clock) or thread / process (real time).  Every status write to the shared storage is
+    logged, whoever makes it."""
+    import contextlib
+    import io
+    from deephyper.evaluator import Evaluator
+    from . import vloop
+
+    backend = scn["backend"]
+    serial = backend == "serial"
+    root = tempfile.mkdtemp(prefix="c14_")
+    obs = {"calls": [], "error": None, "timeline": [], "owner": {}}
+    st = None
+    evs = []
+    try:
+        if serial:
+            vloop.QUANTUM = 1e-4
+            vt = vloop.install()
+            vt.reset()
+            clock = vt.now
+            unit = TICK
+            run = _run_async
+
+            def advance(d):
+                vt.t += d * TICK
+        else:
+            vloop.uninstall()
+            clock = _time.time
+            unit = scn["unit"]
+            run = _run_sync
+
+            def advance(d):
+                _time.sleep(d * unit)
+        _G.update(voff=int(scn.get("voff", 0)), specs=[tuple(s) for s in scn["specs"]], runlog={}, clock=clock, hpo=True, unit=unit)
+        if backend == "process":
+            from deephyper.evaluator.storage import SharedMemoryStorage
+
+            st = _LogProxy(SharedMemoryStorage())
+        else:
+            st = _log_storage(guard=True)
+        searches, traces, nrows = [], [], []
+        search_id = None
+        for k, W in enumerate(scn["Ws"]):
+            mk = {"num_workers": W, "storage": st}
+            if k > 0:
+                mk["search_id"] = search_id
+            ev = Evaluator.create(run, method=backend, method_kwargs=mk)
+            evs.append(ev)
+            tr = []
+            sr = _make_search(ev, os.path.join(root, f"e{k}"), tr, clock, advance)
+            if k == 0:
+                search_id = sr.search_id
+            searches.append(sr)
+            traces.append(tr)
+            nrows.append(0)
+        for c in scn["calls"]:
+            k = c["k"]
+            search, trace = searches[k], traces[k]
+            del trace[:]
+            n0 = len(st.load_all_job_ids(search_id))
+            T0 = clock()
+            obs["timeline"].append((T0, None if c.get("t") is None else T0 + c["t"] * (TICK if serial else 1.0)))
+            rec = {"k": k, "n0": n0}
+            search.ask_delays = list(c.get("delays") or [])
+            search.ask_ends = []
+            try:
+                with contextlib.redirect_stdout(io.StringIO()):  # gather_other_jobs_done prints the jobs it loads
+                    df = search.search(**call_kwargs(c))
+            except _Spin as e:
+                obs["error"] = str(e)
+                obs["error_call"] = len(obs["calls"])
+                break
+            except RuntimeError as e:
+                if "vloop" in str(e):
+                    obs["error"] = "does-not-return"
+                    obs["error_call"] = len(obs["calls"])
+                    break
+                raise
+            rec["end"] = clock()
+            rec["ask_ends"] = list(search.ask_ends)
+            rec["stopped"] = bool(search.stopped)
+            n1 = len(st.load_all_job_ids(search_id))
+            for i in range(n0, n1):
+                obs["owner"][i] = k
+            rec["njobs"] = n1
+            rows = []
+            if df is not None:
+                for _, r in df.iterrows():
+                    rows.append({"id": int(r["job_id"]), "status": str(r["job_status"]), "objective": r["objective"]})
+            rec["rows"] = rows
+            told = [x[1] for x in trace]
+            # a returned search() leaves nothing in flight, so the jobs this call reports are its own new ones
+            # (ids >= n0: local results) or jobs of the storage it had not collected yet (ids < n0: other results)
+            split = lambda ids: [[i for i in ids if i >= n0], [i for i in ids if i < n0]]
+            rec["reps"] = [split(ids) for ids in told]
+            ntold = sum(len(x) for x in told)
+            rec["drain"] = split([r["id"] for r in rows[nrows[k] + ntold:]])
+            rec["new_rows"] = len(rows) - nrows[k]
+            nrows[k] = len(rows)
+            rec["now"] = _tick(clock()) if serial else None
+            rec["slog_len"] = len(st.slog)
+            obs["calls"].append(rec)
+        obs["slog"] = list(st.slog)
+        obs["runlog"] = {k: dict(v) for k, v in _G["runlog"].items()}
+        try:
+            ids = st.load_all_job_ids(search_id)
+            obs["final_storage"] = {int(str(j).split(".")[-1]): int(st.load_job_status(j)) for j in ids}
+        except Exception:
+            obs["final_storage"] = {}
+        if backend == "process":
+            # the run-functions ran in worker processes: what they observed comes back as metadata in the storage
+            try:
+                for jid, data in st.load_jobs(st.load_all_job_ids(search_id)).items():
+                    md = (data or {}).get("metadata") or {}
+                    if "t_start" in md:
+                        obs["runlog"][int(str(jid).split(".")[-1])] = {
+                            "start": float(md["t_start"]), "ret": float(md["t_ret"]),
+                            "reads": [(0, "CANCELLING" if md.get("saw") else "RUNNING")]}
+            except Exception:
+                pass
+    except Exception as e:
+        obs["error"] = f"{type(e).__name__}: {e}"[:300]
+        obs.setdefault("slog", list(st.slog) if st is not None else None)
+        obs.setdefault("runlog", {k: dict(v) for k, v in _G["runlog"].items()})
+    finally:
+        for ev in evs:
+            try:
+                ev.close()
+            except Exception:
+                pass
+            if hasattr(ev, "executor"):
+                try:
+                    ev.executor.shutdown(wait=False, cancel_futures=True)
+                except Exception:
+                    pass
+        shutil.rmtree(root, ignore_errors=True)
+    return obs
+
+
+def run_shared_evaluator_scenario(scn):
+    """op script on SEVERAL real serial evaluators attached to one storage and one search_id, under the virtual loop; every
+    op names the evaluator that performs it (`e`).  The evaluators hold HPO jobs (a Search is built around each), so
+    `_on_done` stores the outputs and the other evaluators can collect them: `gather()` then returns
+    `(local, other)`; op `other` = a direct `gather_other_jobs_done()`."""
+    import contextlib
+    import io
+    from deephyper.evaluator import Evaluator
+    from deephyper.hpo import HpProblem, RandomSearch
+    from . import vloop
+
+    vloop.QUANTUM = 1e-4
+    vt = vloop.install()
+    vt.reset()
+    _G.update(voff=int(scn.get("voff", 0)), specs=[tuple(s) for s in scn["specs"]], runlog={}, clock=vt.now, hpo=True)
+    st = _log_storage(guard=True)
+    root = tempfile.mkdtemp(prefix="c14_")
+    evs = []
+    obs = {"ops": [], "error": None, "timelines": {}, "owner": {}}
+    nsub = 0
+    try:
+        problem = HpProblem()
+        problem.add_hyperparameter((0.0, 10.0), "x")
+        sid = None
+        for k, W in enumerate(scn["Ws"]):
+            mk = {"num_workers": W, "storage": st}
+            if k > 0:
+                mk["search_id"] = sid
+            ev = Evaluator.create(_run_async, method="serial", method_kwargs=mk)
+            sr = RandomSearch(problem, ev, random_state=1, log_dir=os.path.join(root, f"e{k}"))
+            if k == 0:
+                sid = sr.search_id
+            evs.append(ev)
+            obs["timelines"][k] = []
+        with contextlib.redirect_stdout(io.StringIO()):
+            for op in scn["ops"]:
+                e, kind = op["e"], op["op"]
+                ev = evs[e]
+                rec = {"op": kind, "e": e}
+                if kind == "timeout":
+                    ev.timeout = op["t"]
+                    obs["timelines"][e].append((vt.now(), None if op["t"] is None else vt.now() + op["t"] * TICK))
+                    rec["t"] = op["t"]
+                elif kind == "submit":
+                    ev.submit([{"x": nsub + i} for i in range(op["k"])])
+                    for i in range(op["k"]):
+                        obs["owner"][nsub + i] = e
+                    nsub += op["k"]
+                    rec["k"] = op["k"]
+                elif kind == "gather":
+                    try:
+                        res = ev.gather("ALL") if op["all"] else ev.gather("BATCH", op["size"])
+                        local, other = res if isinstance(res, tuple) else (res, [])
+                        rec.update(all=op["all"], size=op.get("size", 0), rep=[_jid(j) for j in local],
+                                   orep=[_jid(j) for j in other], err=None)
+                    except ValueError as ex:
+                        rec.update(all=op["all"], size=op.get("size", 0), rep=[], orep=[],
+                                   err="noJobs" if "No jobs pending" in str(ex) else str(ex))
+                elif kind == "other":
+                    rec.update(orep=[_jid(j) for j in ev.gather_other_jobs_done()], err=None)
+                elif kind == "close":
+                    if _settle(ev):
+                        obs["ops"].append({"op": "settle", "e": e, "now": _tick(vt.now())})
+                    before = len(ev.jobs_done)
+                    ev.close()
+                    rec.update(new=[_jid(j) for j in ev.jobs_done[before:]], err=None)
+                rec["now"] = _tick(vt.now())
+                obs["ops"].append(rec)
+            for e, ev in enumerate(evs):
+                if _settle(ev):
+                    obs["ops"].append({"op": "settle", "e": e, "now": _tick(vt.now())})
+    except _Spin as ex:
+        obs["error"] = str(ex)
+    except RuntimeError as ex:
+        obs["error"] = f"RuntimeError: {ex}"[:200]
+
+    def _o(j):
+        o = j.output
+        return o["objective"] if isinstance(o, dict) and "objective" in o else o
+
+    obs["results"] = {e: [(_jid(j), j.status.name, _o(j)) for j in ev.jobs_done] for e, ev in enumerate(evs)}
+    obs["slog"] = list(st.slog)
+    obs["runlog"] = {k: dict(v) for k, v in _G["runlog"].items()}
+    obs["nsub"] = nsub
+    try:
+        obs["final_storage"] = {int(str(j).split(".")[-1]): int(st.load_job_status(j)) for j in st.load_all_job_ids(sid)}
+    except Exception:
+        obs["final_storage"] = {}
+    for ev in evs:
+        try:
+            ev.close()
+        except Exception:
+            pass
+    shutil.rmtree(root, ignore_errors=True)
+    return obs
+
+
 def run_scenario(scn):
+    if scn["level"] == "shared-evaluator":
+        return run_shared_evaluator_scenario(scn)
+    if scn["level"] == "shared":
+        return run_shared_scenario(scn)
     if scn["level"] == "evaluator":
         if scn.get("backend", "serial") != "serial":
             return run_evaluator_realtime(scn)
@@ -501,9 +815,12 @@ def _logs_of(obs, n):
     return logs
 
 
-def oracle(scn, obs):
-    """-> list of (clause, entry, detail): the property's statement on the real observations"""
+def oracle(scn, obs, reported=None, per_call=True):
+    """-> list of (clause, entry, detail): the property's statement on the real observations.
+    `reported` (multi-evaluator histories): the (id, status, value) rows to judge instead of the last table;
+    `per_call=False`: the clauses that look at the tables call by call are evaluated by the caller"""
     bad = []
+    voff = int(scn.get("voff", 0))
     serial = scn.get("backend", "serial") == "serial"
     if obs.get("error"):
         return [("does-not-return" if "does-not-return" in obs["error"] or "vloop" in obs["error"] else "raises",
@@ -512,7 +829,9 @@ def oracle(scn, obs):
     specs = scn["specs"]
     runlog = obs["runlog"]
     # final rows / reported jobs
-    if scn["level"] == "search":
+    if reported is not None:
+        reported = list(reported)
+    elif scn["level"] == "search":
         rows = obs["calls"][-1]["rows"] if obs["calls"] else []
         reported = [(r["id"], r["status"], r["objective"]) for r in rows]
     else:
@@ -543,7 +862,7 @@ def oracle(scn, obs):
     for i, (s, o) in rep_status.items():
         if s not in ("DONE", "CANCELLED"):
             bad.append(("non-terminal-status-reported", entry, {"job": i, "status": s}))
-    if scn["level"] == "search":
+    if scn["level"] == "search" and per_call:
         # completeness: no id twice in any returned table; after the last call every submitted job is there
         for c, rec in zip(scn["calls"], obs["calls"]):
             ids = [r["id"] for r in rec["rows"]]
@@ -609,13 +928,13 @@ def oracle(scn, obs):
                 bad.append(("running-at-deadline-not-CANCELLED", entry, info))
         if status in ("DONE", "CANCELLED") and "ret" in rl:
             try:
-                ok = float(out) == float(i)
+                ok = float(out) == float(i + voff)
             except Exception:
                 ok = False
             if not ok:
                 bad.append(("value-not-kept", entry, dict(info, output=repr(out))))
     # (R) search returns no later than its last evaluation (virtual clock only: an assertion on order, not on a duration)
-    if scn["level"] == "search" and serial:
+    if scn["level"] == "search" and serial and per_call:
         for ci, rec in enumerate(obs["calls"]):
             prev = {r["id"] for r in obs["calls"][ci - 1]["rows"]} if ci else set()
             mine = [r["id"] for r in rec["rows"] if r["id"] not in prev]
@@ -625,6 +944,383 @@ def oracle(scn, obs):
     return bad
 
 
+# --------------------------------------------------------------------------- several evaluators on one storage
+
+
+def _first_reports(obs):
+    """(id, status, value) as FIRST reported for each job (by its owner's table; the later tables of the other
+    evaluators must agree with it)"""
+    seen = {}
+    for rec in obs["calls"]:
+        for r in rec["rows"]:
+            seen.setdefault(r["id"], (r["id"], r["status"], r["objective"]))
+    return [seen[i] for i in sorted(seen)]
+
+
+def oracle_shared(scn, obs):
+    """the property on a history of search() calls of several evaluators attached to one storage: the per-job clauses
+    (monotone log of ALL the writes to the shared storage, classification, value kept) as for one evaluator, and per
+    returned call: its table holds every job in the storage at that moment exactly once, with a terminal status that
+    is the one the job actually reached (= the last status written for it) and the one every other table reports"""
+    entry = "Search.search"
+    if obs.get("error"):
+        return [("does-not-return" if "does-not-return" in obs["error"] or "vloop" in obs["error"] else "raises", entry,
+                 {"error": obs["error"], "call": obs.get("error_call")})]
+    scn_u = dict(scn, level="search")
+    bad = list(oracle(scn_u, obs, reported=_first_reports(obs), per_call=False))
+    voff = int(scn.get("voff", 0))
+    serial = scn["backend"] == "serial"
+    nsub = max([i for i, _ in (obs.get("slog") or [])] + [-1]) + 1
+    logs = _logs_of(obs, nsub) if obs.get("slog") is not None else {}
+    first = {}
+    prev_ids = {}
+    runlog = obs["runlog"]
+    for ci, rec in enumerate(obs["calls"]):
+        k = rec["k"]
+        ids = [r["id"] for r in rec["rows"]]
+        where = {"call": ci, "evaluator": k}
+        if len(set(ids)) != len(ids):
+            bad.append(("reported-twice", entry, dict(where, ids=ids)))
+        missing = [i for i in range(rec["njobs"]) if i not in set(ids)]
+        if missing:
+            bad.append(("submitted-job-missing-from-results", entry, dict(where, missing=missing, in_storage=rec["njobs"])))
+        for r in rec["rows"]:
+            i = r["id"]
+            if r["status"] not in ("DONE", "CANCELLED"):
+                bad.append(("non-terminal-status-reported", entry, dict(where, job=i, status=r["status"])))
+            f = first.setdefault(i, (r["status"], ci))
+            if f[0] != r["status"]:
+                bad.append(("terminal-status-changed", entry, dict(where, job=i, first_reported=f[0], by_call=f[1], now_reported=r["status"], log=logs.get(i))))
+            lg = logs.get(i)
+            if lg and r["status"] in ST and ST[r["status"]] != lg[-1]:
+                bad.append(("reported-status-not-reached", entry, dict(where, job=i, reported=r["status"], log=lg)))
+            try:
+                ok = float(r["objective"]) == float(i + voff)
+            except Exception:
+                ok = False
+            if not ok and i in runlog and "ret" in runlog[i]:
+                bad.append(("value-not-kept", entry, dict(where, job=i, output=repr(r["objective"]))))
+        if serial:
+            mine = [i for i in ids if i >= rec["n0"]]  # the evaluations of this call
+            rets = [_tick(runlog[i]["ret"]) for i in mine if i in runlog and "ret" in runlog[i]]
+            # (a slow ask() after the last evaluation - the cap on submitted jobs counts every job of the shared storage and
+            # can stop the call right after any ask - is the search's own work, not waiting)
+            asks = [_tick(x) for x in rec.get("ask_ends") or []]
+            if rets and _tick(rec["end"]) > max(rets + asks + [_tick(obs["timeline"][ci][0])]):
+                bad.append(("returns-later-than-last-evaluation", entry, dict(where, end=_tick(rec["end"]), last_ret=max(rets))))
+        prev_ids[k] = set(ids)
+    for i, (s0, ci) in sorted(first.items()):
+        fs = (obs.get("final_storage") or {}).get(i)
+        if fs is not None and s0 in ST and fs != ST[s0]:
+            bad.append(("terminal-status-changed", entry, {"job": i, "first_reported": s0, "by_call": ci, "in_storage_at_the_end": fs, "log": logs.get(i)}))
+    out, seen = [], set()
+    for b in bad:  # one report per (clause, job)
+        key = (b[0], b[2].get("job") if isinstance(b[2], dict) else None)
+        if key not in seen:
+            seen.add(key)
+            out.append(b)
+    return out
+
+
+def build_shared_obs(scn, obs):
+    """the observation handed to the verified checker `checkShared`"""
+    if obs.get("error") or obs.get("slog") is None:
+        return None
+    base = build_obs(dict(scn, level="search"), obs, reported=_first_reports(obs))
+    nsub = len(base["jobs"])
+    tables = []
+    for rec in obs["calls"]:
+        rows = [[r["id"], ST.get(r["status"], 0)] for r in rec["rows"]]
+        tables.append({"nJobs": min(rec["njobs"], nsub), "rows": rows})
+    return {"op": "checkshared", "jobs": base["jobs"], "tables": tables}
+
+
+def lean_request_shared(scn, obs, jobfirst=()):
+    voff = int(scn.get("voff", 0))
+    specs = [[int(m), int(p), i in jobfirst, i + voff] for i, (m, p) in enumerate(scn["specs"])]
+    acts = []
+    for c, rec in zip(scn["calls"], obs["calls"]):
+        acts.append({"e": c["k"], "op": "search", "n": -1 if c.get("n") is None else c["n"], "strict": bool(c.get("strict")),
+                     "timeout": c.get("t"), "reps": rec["reps"], "drain": rec["drain"], "delays": list(c.get("delays") or [])})
+    return {"op": "world", "Ws": list(scn["Ws"]), "hpo": True, "specs": specs, "acts": acts}
+
+
+def _compare_shared(scn, obs, rep):
+    """world model vs observations; returns a dict of differences (empty = agree)"""
+    diff = {}
+    jobs = rep["jobs"]
+    nsub = len(jobs)
+    logs = _logs_of(obs, nsub)
+    if sorted(logs) != list(range(nsub)):
+        diff["njobs"] = (len(logs), nsub)
+        return diff
+    last = {}
+    for c, (rec, mo) in enumerate(zip(obs["calls"], rep["outs"])):
+        if mo["stop"] not in ("budget", "cap", "timeout"):
+            diff[f"call{c}.stop"] = mo["stop"]
+        elif (mo["stop"] != "budget") != rec["stopped"]:
+            diff[f"call{c}.stopped"] = (rec["stopped"], mo["stop"])
+        if rec["now"] != mo["now"]:
+            diff[f"call{c}.now"] = (rec["now"], mo["now"])
+        if len(rec["rows"]) != mo["nresults"]:
+            diff[f"call{c}.rows"] = (len(rec["rows"]), mo["nresults"])
+        if rec["njobs"] != mo["njobs"]:
+            diff[f"call{c}.njobs"] = (rec["njobs"], mo["njobs"])
+        last[rec["k"]] = rec["rows"]
+    final = obs.get("final_storage") or {}
+    for k, rows in sorted(last.items()):
+        if [r["id"] for r in rows] != rep["results"][k]:
+            diff[f"evaluator{k}.results"] = ([r["id"] for r in rows], rep["results"][k])
+        for r in rows:
+            if r["id"] >= nsub:
+                continue
+            mj = jobs[r["id"]]
+            want = float(mj["out"][1]) if mj["out"][0] == "val" else "F_CANCELLED"
+            if r["objective"] != want:
+                diff[f"evaluator{k}.job{r['id']}.objective"] = (r["objective"], want)
+            if ST.get(r["status"]) != mj["status"]:
+                diff[f"evaluator{k}.job{r['id']}.status"] = (r["status"], mj["status"])
+    for i, mj in enumerate(jobs):
+        if logs[i] != mj["log"]:
+            diff[f"job{i}.log"] = (logs[i], mj["log"])
+        if i in final and final[i] != mj["status"]:
+            diff[f"job{i}.status"] = (final[i], mj["status"])
+        rl = obs["runlog"].get(i)
+        if mj["pc"] in ("gathered", "returned"):
+            if rl is None or "ret" not in rl:
+                diff[f"job{i}.returned"] = ("not returned", mj["pc"])
+            else:
+                got = (_tick(rl["start"]), _tick(rl["ret"]), rl["reads"][-1][1] == "CANCELLING")
+                want = (mj["start"], mj["ret"], mj["saw"])
+                if got != want:
+                    diff[f"job{i}.start/ret/saw"] = (got, want)
+        elif rl is not None and "ret" in rl:
+            diff[f"job{i}.returned"] = ("returned", mj["pc"])
+    return diff
+
+
+def _canon_shared(scn):
+    """evaluators renumbered by first use, unused ones dropped"""
+    order = []
+    for c in scn["calls"]:
+        if c["k"] not in order:
+            order.append(c["k"])
+    if order == list(range(len(scn["Ws"]))):
+        return scn
+    return dict(scn, Ws=[scn["Ws"][k] for k in order], calls=[dict(c, k=order.index(c["k"])) for c in scn["calls"]])
+
+
+def shrink_shared(scn, clause, budget=40):
+    """fewer calls, then every call as simple as possible (a plain `max_evals=1` call if the failure survives it, else
+    without budget / strictness / slow ask), one worker per evaluator, non-zero objectives"""
+    def fails(c):
+        nonlocal budget
+        if budget <= 0:
+            return False
+        budget -= 1
+        return any(cl == clause for cl, _, _ in oracle_shared(c, run_scenario(c)))
+
+    def with_call(b, j, c):
+        return dict(b, calls=b["calls"][:j] + [c] + b["calls"][j + 1:])
+
+    best = scn
+    if scn["backend"] != "serial":
+        return _canon_shared(best)
+    changed = True
+    while changed and budget > 0:
+        changed = False
+        cands = []
+        for j in range(len(best["calls"]) - 1):  # drop an earlier call
+            cands.append(_canon_shared(dict(best, calls=best["calls"][:j] + best["calls"][j + 1:])))
+        for j, c in enumerate(best["calls"]):
+            plain = {"k": c["k"], "n": 1}
+            if c != plain:
+                cands.append(with_call(best, j, plain))
+            if c.get("delays"):
+                cands.append(with_call(best, j, {k: v for k, v in c.items() if k != "delays"}))
+            if c.get("n") is not None and c.get("t") is not None:
+                cands.append(with_call(best, j, {k: v for k, v in c.items() if k not in ("n", "strict")}))
+            elif c.get("strict"):
+                cands.append(with_call(best, j, dict(c, strict=False)))
+        if any(W > 1 for W in best["Ws"]):
+            cands.append(dict(best, Ws=[1] * len(best["Ws"])))
+        if int(best.get("voff", 0)) == 0:
+            cands.append(dict(best, voff=1))
+        for cand in cands:
+            if fails(cand):
+                best, changed = cand, True
+                break
+    return _canon_shared(best)
+
+
+def fingerprint_shared(clause, entry, scn):
+    ks = [f"e{c['k']}:{call_kind(c)}" for c in scn["calls"]]
+    opt = f"history={','.join(ks[:-1]) or '-'};call={ks[-1]};backend={scn['backend']}"
+    if int(scn.get("voff", 0)) == 0:
+        opt += ";zero_objective=True"
+    return f"C14|{clause}|{entry}|{opt}"
+
+
+def oracle_shared_ev(scn, obs):
+    """evaluator-level scripts on several evaluators: the writes to the shared storage only move forward; no evaluator
+    has a job twice in its `jobs_done`; the statuses it reports are terminal, are the ones the jobs reached, and agree
+    between the evaluators; the values are kept"""
+    entry = "Evaluator.gather"
+    if obs.get("error"):
+        return [("does-not-return" if "does-not-return" in obs["error"] or "vloop" in obs["error"] else "raises", entry, {"error": obs["error"]})]
+    bad = []
+    voff = int(scn.get("voff", 0))
+    logs = _logs_of(obs, obs["nsub"])
+    runlog = obs["runlog"]
+    for i, lg in sorted(logs.items()):
+        if lg not in ALLOWED_LOGS:
+            bad.append(("status-not-monotone", entry, {"job": i, "log": lg}))
+    first = {}
+    for e, res in sorted(obs["results"].items()):
+        ids = [i for i, _, _ in res]
+        if len(set(ids)) != len(ids):
+            bad.append(("reported-twice", entry, {"evaluator": e, "ids": ids}))
+        for i, stt, out in res:
+            if stt not in ("DONE", "CANCELLED"):
+                bad.append(("non-terminal-status-reported", entry, {"evaluator": e, "job": i, "status": stt}))
+            f = first.setdefault(i, (stt, e))
+            if f[0] != stt:
+                bad.append(("terminal-status-changed", entry, {"job": i, "evaluator": f[1], "reports": f[0], "evaluator2": e, "reports2": stt, "log": logs.get(i)}))
+            lg = logs.get(i)
+            if lg and stt in ST and ST[stt] != lg[-1]:
+                bad.append(("reported-status-not-reached", entry, {"evaluator": e, "job": i, "reported": stt, "log": lg}))
+            if i in runlog and "ret" in runlog[i] and out != "F_CANCELLED":
+                try:
+                    ok = float(out) == float(i + voff)
+                except Exception:
+                    ok = False
+                if not ok:
+                    bad.append(("value-not-kept", entry, {"evaluator": e, "job": i, "output": repr(out)}))
+    return bad
+
+
+def lean_request_shared_ev(scn, obs, jobfirst=()):
+    voff = int(scn.get("voff", 0))
+    specs = [[int(m), int(p), i in jobfirst, i + voff] for i, (m, p) in enumerate(scn["specs"])]
+    acts = []
+    for rec in obs["ops"]:
+        k = rec["op"]
+        a = {"e": rec["e"], "op": k}
+        if k == "timeout":
+            a["t"] = rec["t"]
+        elif k == "submit":
+            a["k"] = rec["k"]
+        elif k == "gather":
+            a.update(all=rec["all"], size=rec["size"], rep=rec["rep"], orep=rec["orep"])
+        elif k == "other":
+            a["orep"] = rec["orep"]
+        elif k == "close":
+            a["rep"] = rec["new"]
+        acts.append(a)
+    return {"op": "world", "Ws": list(scn["Ws"]), "hpo": True, "specs": specs, "acts": acts}
+
+
+def _compare_shared_ev(scn, obs, rep):
+    diff = {}
+    jobs = rep["jobs"]
+    nsub = len(jobs)
+    logs = _logs_of(obs, nsub)
+    if sorted(logs) != list(range(nsub)) or nsub != obs["nsub"]:
+        diff["njobs"] = (len(logs), obs["nsub"], nsub)
+        return diff
+    for k, (rec, mo) in enumerate(zip(obs["ops"], rep["outs"])):
+        if rec.get("err") != mo["err"]:
+            diff[f"op{k}.err"] = (rec.get("err"), mo["err"])
+        if rec["now"] != mo["now"]:
+            diff[f"op{k}.now"] = (rec["now"], mo["now"])
+    final = obs.get("final_storage") or {}
+    for e, res in sorted(obs["results"].items()):
+        if [i for i, _, _ in res] != rep["results"][e]:
+            diff[f"evaluator{e}.results"] = ([i for i, _, _ in res], rep["results"][e])
+        for i, stt, out in res:
+            if i >= nsub:
+                continue
+            mj = jobs[i]
+            want = {"none": None, "F": "F_CANCELLED"}.get(mj["out"][0], float(mj["out"][1]) if mj["out"][0] == "val" else None)
+            if out != want:
+                diff[f"evaluator{e}.job{i}.output"] = (out, want)
+            if ST.get(stt) != mj["status"]:
+                diff[f"evaluator{e}.job{i}.status"] = (stt, mj["status"])
+    for i, mj in enumerate(jobs):
+        if logs[i] != mj["log"]:
+            diff[f"job{i}.log"] = (logs[i], mj["log"])
+        if i in final and final[i] != mj["status"]:
+            diff[f"job{i}.status"] = (final[i], mj["status"])
+        rl = obs["runlog"].get(i)
+        if mj["pc"] in ("gathered", "returned"):
+            if rl is None or "ret" not in rl:
+                diff[f"job{i}.returned"] = ("not returned", mj["pc"])
+            else:
+                got = (_tick(rl["start"]), _tick(rl["ret"]), rl["reads"][-1][1] == "CANCELLING")
+                want = (mj["start"], mj["ret"], mj["saw"])
+                if got != want:
+                    diff[f"job{i}.start/ret/saw"] = (got, want)
+        elif rl is not None and "ret" in rl:
+            diff[f"job{i}.returned"] = ("returned", mj["pc"])
+    return diff
+
+
+def fingerprint_shared_ev(clause, entry, scn):
+    names = [f"e{o['e']}:" + (("gatherALL" if o.get("all") else "gatherBATCH") if o["op"] == "gather" else o["op"]) for o in scn["ops"]]
+    names = [n for k, n in enumerate(names) if k == 0 or names[k - 1] != n]
+    return f"C14|{clause}|{entry}|ops={','.join(names)};backend=serial" + (";zero_objective=True" if int(scn.get("voff", 0)) == 0 else "")
+
+
+def _check_shared_ev(ck, scn, obs, drv, do_shrink=True):
+    case = _case_of(scn, obs)
+    ck.case(case, nontrivial=bool(obs.get("runlog")))
+    ck.count("src:" + scn["src"])
+    entry = "Evaluator.gather"
+    py_bad = oracle_shared_ev(scn, obs)
+    fails = list(py_bad)
+    if not obs.get("error"):
+        # verified checker, one evaluator at a time (scripts need not be complete; no classification: the deadlines are
+        # per evaluator and the model comparison below decides every status write anyway)
+        logs = _logs_of(obs, obs["nsub"])
+        base = dict(start=0, ret=0, natEnd=0, deadline=None, saw=False, pollsAgain=False, loopRan=True, tie=False, gathered=False, valueKept=True)
+        jobs = [dict(base, log=logs.get(i, [])) for i in range(obs["nsub"])]
+        for e, res in sorted(obs["results"].items()):
+            rep = drv.ask({"op": "checklog", "jobs": jobs, "results": [i for i, _, _ in res], "complete": False})
+            ck.count("checker:ok" if rep["check"] else "checker:false")
+            if not rep["check"] and not any(b[0] in CHECKER_CLAUSES for b in py_bad):
+                conj = next(k for k in ("monotone", "once", "complete", "terminal", "classified") if not rep[k])
+                fails.insert(0, ("checker-" + conj, entry, {"evaluator": e, "job": rep.get("badMonotone")}))
+            elif rep["check"] and any(CHECKER_CLAUSES.get(b[0]) in ("monotone", "once", "terminal") and
+                                      (b[2].get("evaluator", e) == e) for b in py_bad):
+                ck.mismatch(case, {"oracle-disagreement": "Python oracle reports a clause the verified checker accepts", "python": py_bad[:2]})
+    for clause, ent, detail in fails[:1]:
+        ck.fail(fingerprint_shared_ev(clause, ent, scn), f"{clause} ({ent}; several evaluators on one storage)", case, {"detail": detail})
+    if obs.get("error"):
+        return
+    for lg in _logs_of(obs, 0).values():
+        ck.count("log:" + "".join("RrDcC"[x] for x in lg))
+    for rec in obs["ops"]:
+        if rec["op"] in ("gather", "other"):
+            for i in rec.get("orep") or []:
+                ck.count("shared:collected-other:" + "RrDcC"[(_logs_of(obs, 0).get(i) or [0])[-1]])
+    rep = drv.ask(lean_request_shared_ev(scn, obs))
+    diff = _compare_shared_ev(scn, obs, rep)
+    if diff:
+        ties = _tie_jobs(rep)
+        if ties:
+            cand = {i for i in ties if f"job{i}.log" in diff or f"job{i}.start/ret/saw" in diff or f"job{i}.status" in diff}
+            if not _compare_shared_ev(scn, obs, drv.ask(lean_request_shared_ev(scn, obs, jobfirst=cand))):
+                ck.count("tie-resolved-by-jobFirst")
+                diff = {}
+    for mj in rep["jobs"]:
+        ck.count("world_pc:" + mj["pc"])
+    for mo in rep["outs"]:
+        if mo.get("err"):
+            ck.count("world_err:" + mo["err"])
+    if diff:
+        ck.mismatch(case, {"impl_vs_world_model": diff})
+
+
 # clauses of the Python oracle that the verified checker (`checkStatusLog`, theorem C14_checker) also decides
 CHECKER_CLAUSES = {
     "status-not-monotone": "monotone", "reported-twice": "once", "submitted-job-missing-from-results": "complete",
@@ -632,6 +1328,9 @@ CHECKER_CLAUSES = {
     "finished-before-deadline-not-DONE": "classified", "running-at-deadline-never-saw-CANCELLING": "classified",
     "running-at-deadline-not-CANCELLED": "classified", "started-after-deadline-not-CANCELLED": "classified",
     "started-after-deadline-never-saw-CANCELLING": "classified", "value-not-kept": "classified",
+    # multi-evaluator histories (`checkShared`, theorem C14_shared_checker): the status a table reports is the last one
+    # written for the job; with monotone logs this also means that all the tables agree
+    "reported-status-not-reached": "reached", "terminal-status-changed": "reached",
 }
 _RT_NUMBERS = {  # real time: ticks that put a job into the class the robust classification found
     "none": dict(start=0, ret=1, natEnd=1, deadline=None), "before": dict(start=0, ret=1, natEnd=1, deadline=3),
@@ -640,7 +1339,7 @@ _RT_NUMBERS = {  # real time: ticks that put a job into the class the robust cla
 }
 
 
-def build_obs(scn, obs):
+def build_obs(scn, obs, reported=None):
     """the observation handed to the verified checker: one record per submitted job (index = job id) built from
     the implementation's status-write log, the run-function's own record and the result table"""
     if obs.get("error") or obs.get("slog") is None:
@@ -648,7 +1347,11 @@ def build_obs(scn, obs):
     serial = scn.get("backend", "serial") == "serial"
     specs = scn["specs"]
     runlog = obs["runlog"]
-    if scn["level"] == "search":
+    voff = int(scn.get("voff", 0))
+    if reported is not None:
+        reported = list(reported)
+        complete = True
+    elif scn["level"] == "search":
         rows = obs["calls"][-1]["rows"] if obs["calls"] else []
         reported = [(r["id"], r["status"], r["objective"]) for r in rows]
         complete = True
@@ -688,7 +1391,7 @@ def build_obs(scn, obs):
                     rec["loopRan"] = _loop_ran(obs, dlo, rl["ret"])
         if gathered:
             try:
-                rec["valueKept"] = float(fin[1]) == float(i)
+                rec["valueKept"] = float(fin[1]) == float(i + voff)
             except Exception:
                 rec["valueKept"] = False
         jobs.append(rec)
@@ -887,6 +1590,124 @@ def gen_search(ck, n):
     return out
 
 
+def gen_shared(ck, n, nzero):
+    """serial backend, virtual clock: histories of 2-4 search() calls made by 2-3 evaluators attached to one storage and
+    one search_id (call kinds as in gen_search; the evaluator of the first call creates the search, the others continue
+    it).  `nzero` of them with value offset 0 (job 0 returns the objective 0.0)"""
+    rng = ck.rng
+    out = []
+    fam = [[(0, "T"), (1, "T")], [(0, "T"), (1, "P")], [(0, "T"), (1, "T"), (0, "P")], [(0, "B"), (1, "T"), (2, "T")],
+           [(0, "P"), (1, "T")], [(0, "T"), (1, "S")], [(0, "T"), (0, "P"), (1, "T")], [(0, "T"), (1, "Q"), (0, "T")],
+           [(0, "T"), (1, "B"), (2, "P")], [(0, "Q"), (1, "T"), (0, "T"), (1, "P")]]
+    for t in range(n + nzero):
+        if t < len(fam):
+            seq = fam[t]
+        else:
+            E = rng.choice([2, 2, 3])
+            L = rng.choice([2, 3, 3, 4])
+            ks = [0] + [rng.randrange(E) for _ in range(L - 1)]
+            if len(set(ks)) < 2:
+                ks[-1] = 1
+            seq = [(k, rng.choice("PSTTTBBQ")) for k in ks]
+        E = max(k for k, _ in seq) + 1
+        Ws = [rng.choice([1, 2, 2, 4]) for _ in range(E)]
+        calls = [dict(_rand_call(rng, kind), k=k) for k, kind in seq]
+        c = next((x["t"] for x in calls if x.get("t") is not None), 3)
+        specs = _specs_around(rng, 60, c, max(Ws))
+        specs = [[max(1, m), p] for m, p in specs]
+        src = "shared"
+        if rng.random() < 0.25:
+            for x in calls:  # a slow ask(), under the same restriction as in gen_search
+                if x.get("t") is not None:
+                    if Ws[x["k"]] == 1:
+                        x["delays"] = [rng.choice([0, 0, 1]) for _ in range(rng.randint(0, 2))] + [rng.randint(1, x["t"] + 1)]
+                    else:
+                        x["delays"] = [rng.randint(x["t"] - 1, x["t"] + 2)]
+                    src = "shared:slow-ask"
+        voff = 0 if t >= n else 1
+        if voff == 0:
+            src += ":zero-objective"
+        out.append({"level": "shared", "backend": "serial", "Ws": Ws, "voff": voff, "specs": specs, "calls": calls, "src": src})
+    return out
+
+
+def gen_shared_evaluator(ck, n):
+    """serial backend: op scripts on 2 evaluators attached to one storage; an evaluator acts only while the other has
+    nothing in flight.  Patterns: continue (e0 gathers everything, e1 submits and gathers: its gather returns e0's jobs
+    as `other`; e0 then collects e1's), closed-inflight (e0's close() records in-flight jobs as CANCELLED "F_CANCELLED",
+    possibly leaves one CANCELLING; e1 collects what has an output), direct (gather_other_jobs_done called directly,
+    twice)"""
+    rng = ck.rng
+    out = []
+    for t in range(n):
+        Ws = [rng.choice([1, 2, 2, 4]), rng.choice([1, 2])]
+        c = rng.choice([None, 2, 3, 3, 4])
+        K = rng.randint(1, 6)
+        K2 = rng.randint(1, 3)
+        pat = ["continue", "closed-inflight", "direct"][t % 3]
+        ops = []
+        if c is not None:
+            ops.append({"e": 0, "op": "timeout", "t": c})
+        ops.append({"e": 0, "op": "submit", "k": K})
+        if pat == "continue":
+            ops += [{"e": 0, "op": "gather", "all": True}]
+            if rng.random() < 0.5:
+                ops.append({"e": 1, "op": "timeout", "t": rng.choice([1, 2, 3])})
+            ops += [{"e": 1, "op": "submit", "k": K2}, {"e": 1, "op": "gather", "all": True},
+                    {"e": 0, "op": "other"}, {"e": 1, "op": "close"}, {"e": 0, "op": "close"}]
+        elif pat == "closed-inflight":
+            K = max(K, Ws[0] + 1)
+            ops[-1]["k"] = K
+            ops += [{"e": 0, "op": "gather", "all": False, "size": 1}, {"e": 0, "op": "close"},
+                    {"e": 1, "op": "submit", "k": K2}, {"e": 1, "op": "gather", "all": True}, {"e": 1, "op": "other"},
+                    {"e": 1, "op": "close"}]
+        else:
+            ops += [{"e": 0, "op": "gather", "all": True}, {"e": 1, "op": "other"}, {"e": 1, "op": "other"},
+                    {"e": 1, "op": "submit", "k": K2}, {"e": 1, "op": "gather", "all": False, "size": 1},
+                    {"e": 1, "op": "gather", "all": True}, {"e": 0, "op": "gather", "all": True}, {"e": 0, "op": "close"},
+                    {"e": 1, "op": "close"}]
+        specs = _specs_around(rng, K + K2, c, Ws[0])
+        if pat == "closed-inflight":
+            specs = [[max(1, m), p] for m, p in specs]
+        out.append({"level": "shared-evaluator", "backend": "serial", "Ws": Ws, "voff": 1, "specs": specs, "ops": ops,
+                    "src": "shared-evaluator:" + pat})
+    return out
+
+
+def gen_shared_realtime(ck, n, backend):
+    """thread / process backend, real time: a first search ends by its timeout with evaluations DONE before it and
+    evaluations running at it (CANCELLED, values kept); a second evaluator on the same storage / search_id continues
+    (by timeout or by budget), sometimes the first one once more"""
+    rng = ck.rng
+    out = []
+    unit = 0.05
+    fam = [[(0, "T"), (1, "T")], [(0, "T"), (1, "P")], [(0, "T"), (1, "T"), (0, "P")], [(0, "B"), (1, "P")]]
+    for t in range(n):
+        seq = fam[t % len(fam)]
+        E = max(k for k, _ in seq) + 1
+        Ws = [rng.choice([1, 2]) for _ in range(E)]
+        t0 = 1 if backend == "thread" else 2
+        calls = []
+        for k, kind in seq:
+            c = {"k": k}
+            if kind in "PB":
+                c["n"] = rng.choice([1, 2]) if kind == "P" else 8
+            if kind in "TB":
+                c["t"] = t0
+            calls.append(c)
+        specs = []
+        for i in range(80):
+            p = rng.choice([1, 2])
+            if i < Ws[0]:
+                dur = 0.25 if (i % 2 == 0 and Ws[0] > 1) else t0 + 0.75  # short and long evaluations side by side
+            else:
+                dur = rng.choice([0.25, 0.5, 0.5, 0.75, t0 + 0.75, t0 + 1.5])
+            specs.append([int(round(dur / (p * unit))), p])
+        out.append({"level": "shared", "backend": backend, "Ws": Ws, "voff": 1, "specs": specs, "calls": calls, "unit": unit,
+                    "src": f"shared:{backend}"})
+    return out
+
+
 def gen_busy_realtime(ck, backend, variants):
     """the caller is busy between two gathers (thread / process): job A is collected by gather("BATCH", 1), job B returns
     while the loop is not running -- variant "after": B's run ends after the expiry (must be CANCELLED), variant
@@ -1048,14 +1869,91 @@ def _tie_jobs(rep):
 
 
 def _case_of(scn, obs=None):
-    case = {k: scn[k] for k in ("level", "backend", "W", "specs", "ops", "calls", "unit", "hpo") if k in scn}
-    if scn["level"] == "search" and obs is not None:
+    case = {k: scn[k] for k in ("level", "backend", "W", "Ws", "voff", "specs", "ops", "calls", "unit", "hpo") if k in scn}
+    if scn["level"] in ("search", "shared") and obs is not None:
         used = [i for i in obs.get("runlog", {})] + [0]
         case["specs"] = case["specs"][: max(used) + 4]  # the run-functions of the jobs that ran (+ a few)
     return case
 
 
+def _check_shared(ck, scn, obs, drv, do_shrink=True):
+    """a history of search() calls of several evaluators on one storage: verified checker `checkShared` on the real
+    status log and tables (L3, with the Python oracle as cross-check and for the clause names), world model (L2, serial)"""
+    case = _case_of(scn, obs)
+    ck.case(case, nontrivial=bool(obs.get("runlog")) and len({c["k"] for c in scn["calls"]}) >= 2)
+    ck.count("src:" + scn["src"])
+    ck.count(f"evaluators={len(scn['Ws'])}")
+    serial = scn["backend"] == "serial"
+    entry = "Search.search"
+    py_bad = oracle_shared(scn, obs)
+    req = build_shared_obs(scn, obs)
+    if req is None:
+        ck.count("checker:not-applicable(no status log)")
+        fails = py_bad
+    else:
+        rep = drv.ask(req)
+        ck.count("sharedchecker:ok" if rep["check"] else "sharedchecker:false")
+        py_core = [b for b in py_bad if b[0] in CHECKER_CLAUSES]
+        fails = [b for b in py_bad if b[0] not in CHECKER_CLAUSES]
+        if not rep["check"]:
+            if not rep["monotone"]:
+                conj, badjob = "monotone", rep.get("badMonotone")
+            else:
+                bt = rep["badTable"]
+                conj = next((k for k in ("once", "complete", "terminal", "classified", "reached") if not bt[k]), "table")
+                badjob = bt.get("badClassified") if conj == "classified" else bt.get("badRow") if conj == "reached" else None
+            agree = [b for b in py_core if CHECKER_CLAUSES[b[0]] == conj] or py_core
+            if agree:
+                fails.insert(0, agree[0])
+            else:
+                ck.count("checker:python-oracle-missed")
+                fails.insert(0, ("checker-" + conj, entry, {"job": badjob, "table": rep.get("badTable"),
+                                                          "record": req["jobs"][badjob] if isinstance(badjob, int) and badjob < len(req["jobs"]) else None}))
+        elif py_core:
+            ck.mismatch(case, {"oracle-disagreement": "Python oracle reports a clause the verified checker accepts", "python": py_core[:2]})
+    for clause, ent, detail in fails[:1]:
+        s2 = shrink_shared(scn, clause) if (do_shrink and not clause.startswith("checker-")) else scn
+        o2 = obs if s2 is scn else run_scenario(s2)
+        ck.fail(fingerprint_shared(clause, ent, s2), f"{clause} ({ent}; several evaluators on one storage)", _case_of(s2, o2),
+                {"detail": detail, "unshrunk": case if s2 is not scn else None})
+    if obs.get("error"):
+        return
+    # histogram of what was exercised
+    logs = _logs_of(obs, 0)
+    for lg in logs.values():
+        ck.count("log:" + "".join("RrDcC"[x] for x in lg))
+    owner = obs.get("owner") or {}
+    for rec in obs["calls"]:
+        others = [i for pair in rec["reps"] + [rec["drain"]] for i in pair[1]]
+        ck.count("shared:other-jobs-collected-by-a-call=" + (">=1" if others else "0"))
+        for i in others:
+            lg = logs.get(i) or [0]
+            ck.count("shared:collected-other:" + "RrDcC"[lg[-1]])
+    if not serial:
+        return
+    # ---- L2: the world model replays the history with the observed reports
+    rep = drv.ask(lean_request_shared(scn, obs))
+    diff = _compare_shared(scn, obs, rep)
+    if diff:
+        ties = _tie_jobs(rep)
+        if ties:
+            cand = {i for i in ties if f"job{i}.log" in diff or f"job{i}.start/ret/saw" in diff or f"job{i}.status" in diff}
+            rep2 = drv.ask(lean_request_shared(scn, obs, jobfirst=cand))
+            if not _compare_shared(scn, obs, rep2):
+                ck.count("tie-resolved-by-jobFirst")
+                diff = {}
+    for mo in rep["outs"]:
+        if mo.get("stop"):
+            ck.count("world_stop:" + mo["stop"])
+    if diff:
+        ck.mismatch(case, {"impl_vs_world_model": diff})
+
+
 def _check_one(ck, scn, obs, drv, do_shrink=True):
+    if scn["level"] == "shared":
+        return _check_shared(ck, scn, obs, drv, do_shrink)
+    if scn["level"] == "shared-evaluator":
+        return _check_shared_ev(ck, scn, obs, drv, do_shrink)
     case = _case_of(scn, obs)
     nontrivial = bool(obs.get("runlog")) and (scn["level"] == "search" or any(o["op"] == "timeout" for o in scn["ops"]))
     scn.setdefault("backend", "serial")
@@ -1203,14 +2101,22 @@ def run(ck):
                "two-submits / close-only) and sequences of 1-3 search() calls over {n, strict n, timeout, timeout+n, "
                "timeout+strict n}; run-functions with m sleeps of p ticks whose natural finish straddles the deadline by "
                "-1/0/+1 tick, poll intervals 1-3; thread (and, thorough, process) backend in real time with timeouts "
-               "1-2 s and durations on a 0.25 s grid; distinct by canonical scenario; non-trivial = a timeout is in play "
-               "and at least one job ran")
+               "1-2 s and durations on a 0.25 s grid; SEVERAL evaluators (2-3) attached to one storage and one search_id: "
+               "histories of 2-4 search() calls in which the evaluators take turns (a later evaluator continues the search, "
+               "its gathers collect the finished jobs of the others through gather_other_jobs_done) on the serial backend "
+               "(virtual clock, replayed by the world model of Model/SharedStorage.lean) and on the thread and process "
+               "backends (real time; every status write to the shared storage is logged on all three), a few of them with "
+               "an objective of exactly 0.0, and evaluator-level scripts on 2 serial evaluators (continue / closed-inflight "
+               "/ direct gather_other_jobs_done); distinct by canonical scenario; non-trivial = a timeout is in play "
+               "and at least one job ran (multi-evaluator histories: at least two evaluators acted)")
     ck.assumptions = [
         "asyncio.wait reports only finished tasks, each once, at least as many as awaited (checked by the model on the observed reports: otherwise badEnv)",
         "asyncio.Semaphore hands permits over in FIFO order; wait_for(shield(f), t) raises TimeoutError at the deadline unless f finished first, immediately when t <= 0; exact ties are an input (jobFirst), observed",
         "virtual clock: time passes only inside run_until_complete; everything due at an instant happens before the clock moves (harness/vloop.py)",
         "thread / process backends: same execute() body with run_in_executor; compared per job on observed start and deadline, only for jobs >= 0.25 s away from a tie; never an assertion on a duration",
         "close() while a job is CANCELLING leaves it CANCELLING and unreported (modelled as Pc.aborted; outside the property: the evaluation has not returned)",
+        "several evaluators on one storage: an evaluator acts only while the others have nothing in flight (their event loops do not run meanwhile); the order in which gather_other_jobs_done reports the jobs of the others (ids sorted as strings) is an observed input whose contract (exactly the collectable jobs not yet gathered, each once) the model checks",
+        "does-not-return (multi-evaluator histories) = 2000 consecutive polls of the storage by the caller without any write to it (progress, not a duration)",
     ]
     ck.trusted_extra = ["harness/vloop.py (virtual-time event loop, patched time of deephyper.evaluator._evaluator)"]
     from . import vloop
@@ -1224,6 +2130,9 @@ def run(ck):
     else:
         real += gen_realtime_evaluator(ck, 1, "process")  # ProcessPoolEvaluator.execute at least once in quick
         real += gen_busy_realtime(ck, "thread", ["after", "before"]) + gen_busy_realtime(ck, "process", ["after"])
+    # several evaluators on one storage (generated last: the scenarios above are the same as before for a given seed)
+    serial += gen_shared(ck, ck.pick(70, 900), ck.pick(3, 6)) + gen_shared_evaluator(ck, ck.pick(30, 300))
+    real += gen_shared_realtime(ck, ck.pick(2, 8), "thread") + gen_shared_realtime(ck, ck.pick(1, 4), "process")
     if ck.thorough:
         import concurrent.futures as cf
 
@@ -1254,8 +2163,8 @@ def replay(ck, case):
     obs = run_scenario(scn)
     vloop.uninstall()
     brief = {k: obs.get(k) for k in ("error", "results", "final")}
-    if scn["level"] == "search":
-        brief["calls"] = [{"rows": [(r["id"], r["status"]) for r in c["rows"]], "stopped": c["stopped"]} for c in obs["calls"]]
+    if scn["level"] in ("search", "shared"):
+        brief["calls"] = [{"evaluator": c.get("k", 0), "rows": [(r["id"], r["status"]) for r in c["rows"]], "stopped": c["stopped"]} for c in obs["calls"]]
     print("replay:", json.dumps(brief, default=str)[:3000])
     with ck.driver() as drv:
         _check_one(ck, scn, obs, drv, do_shrink=False)
@@ -1265,6 +2174,13 @@ def search(ck):
     """deeper failing-input search (L3 only) when L1/L2 broke and run() found no failing input"""
     from . import vloop
 
+    for scn in gen_shared(ck, ck.pick(150, 1000), 0):
+        scn["src"] = "search()"
+        obs = run_scenario(scn)
+        for clause, entry, detail in oracle_shared(scn, obs)[:1]:
+            s2 = shrink_shared(scn, clause)
+            o2 = obs if s2 is scn else run_scenario(s2)
+            ck.fail(fingerprint_shared(clause, entry, s2), f"{clause} ({entry}; several evaluators on one storage)", _case_of(s2, o2), {"detail": detail})
     scns = gen_search(ck, ck.pick(400, 3000)) + gen_evaluator(ck, ck.pick(400, 3000))
     for scn in scns:
         scn["src"] = "search()"
